@@ -9,8 +9,14 @@ Driver level, at the end of this file (Model/Conn.lean): `C11_bad_search_frame_e
 frame that decodes as an envelope but, arriving under the ID of a SEARCH, is neither a search item nor
 a well-formed SearchResultDone ends the driver with an error (fix F4) — and its composition with
 C04's whole-history theorem: after that step nobody is left waiting.
+The read loop around the decoder: `C11_framing_rejects` (every segmentation of good messages ++ a rejected
+element ++ anything: exactly the good frames, then the error state), `C11_framing_waits_only_for_incomplete`;
+composed with the connection model (server events computed from the reads, not supplied by hand):
+`C11_undecodable_bytes_end_connection`.
 -/
 import Ldap3V.Lemmas.FramingWF
+import Ldap3V.Lemmas.FramingErr
+import Ldap3V.Lemmas.FramingConnRun
 import Ldap3V.Lemmas.BerDepth
 import Ldap3V.Lemmas.EnvelopeShape
 import Ldap3V.Lemmas.ConnGaps
@@ -274,6 +280,93 @@ example : IsEnvelope (.cons 3 16 ([.prim 0 4 [0x41]] ++ [.prim 0 2 [0xFF, 0xFF, 
     (-1) (.prim 1 2 []) [] :=
   .adTrailer 3 _ _ _ _ (-1) ⟨_, rfl, by decide, by decide, by decide⟩ rfl rfl
 
+/-! ## the read loop (`FramedRead` around the decoder) on a stream that goes bad
+
+The theorems above are about ONE decoder call.  These two are about the loop that feeds it
+successive reads (`Framing.feedAll`, Model/Envelope.lean), for EVERY segmentation of the stream. -/
+
+/-- **The error is reached under every segmentation, after exactly the good frames.**
+For every list of well-formed messages, every choice of definite-length encoding of each, every
+byte string `bad` whose outer element has arrived and is not an envelope (the hypotheses of
+`C11_complete_non_envelope_rejected`), every bytes `y` after it, and EVERY way `cs` of cutting
+`e₁ ++ … ++ eₙ ++ bad ++ y` into reads: the loop has delivered exactly the frames of the `n` messages, in
+order, and is in the error state; the buffer has been given up.  Nothing of `bad` or of `y` is ever
+delivered (and since `y` and the cuts are arbitrary, no later read changes that: FramedRead ends
+the stream at the first `Err`).  Size: the whole stream is shorter than 2^64 bytes (lber's `u64`
+length arithmetic). -/
+theorem C11_framing_rejects (ms : List (WireMsg × Bytes)) (bad y : Bytes) (cs : List Bytes)
+    (hwf : ∀ p ∈ ms, p.1.WF ∧ Enc p.1.tlv p.2)
+    (hsz : ((ms.map (·.2)).flatten ++ bad ++ y).length < 18446744073709551616)
+    (ha : OuterArrived bad)
+    (hn : ∀ t rest id op cs, parseTag bad = .ok t rest → ¬ IsEnvelope t id op cs)
+    (hc : cs.flatten = (ms.map (·.2)).flatten ++ bad ++ y) :
+    Framing.feedAll {} cs = { buf := [], frames := ms.map (·.1.frame), errored := true } :=
+  feedAll_wf_then_rejected ms bad y cs hwf hsz (C11_complete_non_envelope_rejected bad ha hn) hc
+
+/-- … the same for ANY element the decoder rejects (not only the complete non-envelopes: also a
+malformed length inside, nesting deeper than 64, …): the hypothesis is the outcome of the one call -/
+theorem C11_framing_rejects_any (ms : List (WireMsg × Bytes)) (bad y : Bytes) (cs : List Bytes)
+    (hwf : ∀ p ∈ ms, p.1.WF ∧ Enc p.1.tlv p.2)
+    (hsz : ((ms.map (·.2)).flatten ++ bad ++ y).length < 18446744073709551616)
+    (hb : decodeInner bad = .decodeError)
+    (hc : cs.flatten = (ms.map (·.2)).flatten ++ bad ++ y) :
+    Framing.feedAll {} cs = { buf := [], frames := ms.map (·.1.frame), errored := true } :=
+  feedAll_wf_then_rejected ms bad y cs hwf hsz hb hc
+
+/-- **The loop waits only for incomplete elements** (the dual): after ANY reads of ANY bytes, if the
+loop is not in the error state then what it holds back is (a) the tail of what was read, (b) a
+buffer on which the decoder answers "need more", i.e. (c) one whose outer element has NOT arrived
+and (d) which is a proper prefix of an arrived outer element.  Nothing complete is ever left
+undecided between reads — neither a complete message (it was delivered) nor a complete non-message
+(the loop would be in the error state). -/
+theorem C11_framing_waits_only_for_incomplete (cs : List Bytes)
+    (he : (Framing.feedAll {} cs).errored = false) :
+    (∃ pre, cs.flatten = pre ++ (Framing.feedAll {} cs).buf) ∧
+    decodeInner (Framing.feedAll {} cs).buf = .needMore ∧
+    ¬ OuterArrived (Framing.feedAll {} cs).buf ∧
+    ∃ y, y ≠ [] ∧ OuterArrived ((Framing.feedAll {} cs).buf ++ y) := by
+  have hd : decodeInner (Framing.feedAll {} cs).buf = .needMore := by
+    rcases feedAll_drained {} cs init_drained with h | h
+    · rw [he] at h; cases h
+    · exact h
+  obtain ⟨pre, hp⟩ := feedAll_suffix {} cs he
+  exact ⟨⟨pre, by simpa using hp⟩, hd, (C11_need_more_iff _).mp hd, (C11_need_more_is_proper_prefix _).1 hd⟩
+
+/-- in the strict X.690 vocabulary of `C11_outer_complete_decides`: the buffer held back between
+reads is never a complete outer element (with or without bytes after it) -/
+theorem C11_framing_never_holds_complete (cs : List Bytes) (he : (Framing.feedAll {} cs).errored = false) :
+    ¬ OuterComplete (Framing.feedAll {} cs).buf := fun h =>
+  (C11_framing_waits_only_for_incomplete cs he).2.2.1 (C11_outerComplete_arrived _ h)
+
+/-! ### non-vacuity (tests) -/
+
+/-- a DelResponse, message ID 1, success: `30 0c 02 01 01 6b 07 0a 01 00 04 00 04 00` -/
+def exDelResp : WireMsg := ⟨[1], 1, .cons 1 11 [.prim 0 10 [0], .prim 0 4 [], .prim 0 4 []], none⟩
+def exDelRespBytes : Bytes := [0x30, 0x0c, 0x02, 0x01, 0x01, 0x6b, 0x07, 0x0a, 0x01, 0x00, 0x04, 0x00, 0x04, 0x00]
+
+example : exDelResp.WF ∧ Enc exDelResp.tlv exDelRespBytes := by
+  refine ⟨⟨by decide, by decide, rfl, ?_, ?_⟩, ?_⟩
+  · intro cs h; cases h
+  · simp [WireMsg.tlv, exDelResp, msgTlv, Tlv.depth, Tlv.depthList, maxDepth]
+  · have := enc_encode exDelResp.tlv (by simp [exDelResp, WireMsg.tlv, msgTlv, WF, WFList, encodeList, encode, encType, encLen])
+    simpa [exDelResp, exDelRespBytes, WireMsg.tlv, msgTlv, encodeList, encode, encType, encLen] using this
+
+/-- one good message, then `30 03 04 01 41` (hypotheses shown above), then the beginning of another
+message: all at once, in three reads cutting through the bad element, and one byte at a time — the
+one frame (ID 1, protocolOp 11), the error state, an empty buffer -/
+example :
+    let stream := exDelRespBytes ++ [0x30, 0x03, 0x04, 0x01, 0x41] ++ [0x30, 0x0c, 0x02]
+    ∀ cs ∈ [[stream], [stream.take 9, (stream.drop 9).take 7, stream.drop 16], stream.map ([·])],
+      cs.flatten = stream ∧
+      (Framing.feedAll {} cs).frames.map (fun f => (f.1, f.2.1.id)) = [(1, 11)] ∧
+      (Framing.feedAll {} cs).errored = true ∧ (Framing.feedAll {} cs).buf = [] := by decide
+
+/-- the dual: a stream cut off inside the second message — not in the error state, the buffer is
+the unfinished element -/
+example :
+    (Framing.feedAll {} ((exDelRespBytes ++ [0x30, 0x03, 0x04]).map ([·]))).errored = false ∧
+    (Framing.feedAll {} ((exDelRespBytes ++ [0x30, 0x03, 0x04]).map ([·]))).buf = [0x30, 0x03, 0x04] := by decide
+
 end Ldap3V
 
 /-! ## driver level: a well-framed but wrong message under a search's ID -/
@@ -357,5 +450,121 @@ example :
     let s := run (init 100) (badSearchHistory ⟨2, 1, 9, true⟩ ++ [.drvResp])
     s.drv = .endedErr ∧ s.ops.map (·.mail) = [.dropped, .ack] ∧ s.ops.map (·.res) = [none, some .ack] ∧
     s.chans.map (·.items) = [[.entry ⟨2, 4, 8, false⟩]] ∧ chanOpen s 0 = false ∧ s.inUse = [] := by decide
+
+/-! ## byte level and driver level composed: undecodable bytes end the connection, under every segmentation
+
+Until here the connection model was told by hand that the stream went bad (`srvGarbage`).  With
+`connFramesWith` / `srvEvents` / `weave` (Lemmas/FramingConn.lean, see Props/C06.lean) its server
+events are COMPUTED from the reads of the server's bytes. -/
+open Spec
+
+/-- `NobodyWaits s` (Lemmas/FramingConnRun.lean) is the conclusion of `C04_dead_connection_nobody_waits` -/
+theorem C11_dead_connection_nobody_waits (N : Nat) (evs : List Ev) (hcount : allocCount evs ≤ N)
+    (hd : (run (init N) evs).drv ≠ .running) : NobodyWaits (run (init N) evs) :=
+  C04_dead_connection_nobody_waits_nowrap N evs hcount hd
+
+/-- **From bytes to the end of the connection.**  The server sends well-formed messages `ms` (any
+definite-length encodings), then a complete outer element `bad` that is not an envelope, then
+anything (`y`); TCP cuts the stream into reads `cs` in ANY way; the client's and driver's events
+`segs` (any events other than the server's; at most `N` allocations) are interleaved with the reads'
+effects in ANY way.  Then at the end of that history
+* the server log of the connection model is exactly the frames of `ms`, in order (nothing of `bad`
+  or `y` is ever routed to anybody), and the link is `garbage`;
+* if the driver is still running and has consumed those frames, its next response step ends it
+  with an error and nobody is left waiting (every pending call resolves at its next poll, every
+  started stream's `next()` returns a queued item or `EndOfStream`). -/
+theorem C11_undecodable_bytes_end_connection (N : Nat) (tokOf : Nat → Int × Tlv × List Control → Nat)
+    (ms : List (WireMsg × Bytes)) (bad y : Bytes) (cs : List Bytes)
+    (hwf : ∀ p ∈ ms, p.1.WF ∧ Enc p.1.tlv p.2)
+    (hsz : ((ms.map (·.2)).flatten ++ bad ++ y).length < 18446744073709551616)
+    (ha : OuterArrived bad)
+    (hn : ∀ t rest id op cs, parseTag bad = .ok t rest → ¬ IsEnvelope t id op cs)
+    (hc : cs.flatten = (ms.map (·.2)).flatten ++ bad ++ y)
+    (segs : List (List Ev)) (hs : ∀ seg ∈ segs, ∀ e ∈ seg, isSrv e = false)
+    (hcount : allocCount segs.flatten ≤ N) :
+    (run (init N) (weave (srvEvents (connFramesWith tokOf cs)) segs)).srvLog =
+      (ms.map (·.1.frame)).mapIdx (fun i m => connFrameWith (tokOf i m) m) ∧
+    (run (init N) (weave (srvEvents (connFramesWith tokOf cs)) segs)).link = .garbage ∧
+    ((run (init N) (weave (srvEvents (connFramesWith tokOf cs)) segs)).drv = .running →
+     ms.length ≤ (run (init N) (weave (srvEvents (connFramesWith tokOf cs)) segs)).pos →
+      (run (init N) (weave (srvEvents (connFramesWith tokOf cs)) segs ++ [.drvResp])).drv = .endedErr ∧
+      NobodyWaits (run (init N) (weave (srvEvents (connFramesWith tokOf cs)) segs ++ [.drvResp]))) := by
+  have hfr := connFramesWith_rejected tokOf ms bad y cs hwf hsz (C11_complete_non_envelope_rejected bad ha hn) hc
+  rw [hfr]
+  obtain ⟨h1, h2⟩ := run_weave_srvEvents ((ms.map (·.1.frame)).mapIdx fun i m => connFrameWith (tokOf i m) m)
+    true segs (init N) rfl hs
+  have h1' : (run (init N) (weave (srvEvents ((ms.map (·.1.frame)).mapIdx (fun i m => connFrameWith (tokOf i m) m), true)) segs)).srvLog =
+      (ms.map (·.1.frame)).mapIdx (fun i m => connFrameWith (tokOf i m) m) := by
+    rw [h1]; simp [init]
+  refine ⟨h1', h2, fun hr hpos => ?_⟩
+  have hp : (run (init N) (weave (srvEvents ((ms.map (·.1.frame)).mapIdx (fun i m => connFrameWith (tokOf i m) m), true)) segs)).srvLog[
+      (run (init N) (weave (srvEvents ((ms.map (·.1.frame)).mapIdx (fun i m => connFrameWith (tokOf i m) m), true)) segs)).pos]? = none := by
+    rw [List.getElem?_eq_none_iff, h1']
+    simpa using hpos
+  have hd : (run (init N) (weave (srvEvents ((ms.map (·.1.frame)).mapIdx (fun i m => connFrameWith (tokOf i m) m), true)) segs ++ [.drvResp])).drv = .endedErr := by
+    rw [run_drvResp_garbage _ _ hr hp h2]; rfl
+  refine ⟨hd, C11_dead_connection_nobody_waits N _ ?_ (by rw [hd]; simp)⟩
+  rw [allocCount_append_nonalloc _ _ (by intro e he; simp at he; subst he; rfl),
+    allocCount_weave _ _ (srvEvents_nonalloc _)]
+  exact hcount
+
+/-- the same with the server's events first and then ANY events `evs` (faults, further server
+events — they are not enabled any more — included) -/
+theorem C11_undecodable_bytes_end_connection_first (N : Nat) (tokOf : Nat → Int × Tlv × List Control → Nat)
+    (ms : List (WireMsg × Bytes)) (bad y : Bytes) (cs : List Bytes)
+    (hwf : ∀ p ∈ ms, p.1.WF ∧ Enc p.1.tlv p.2)
+    (hsz : ((ms.map (·.2)).flatten ++ bad ++ y).length < 18446744073709551616)
+    (ha : OuterArrived bad)
+    (hn : ∀ t rest id op cs, parseTag bad = .ok t rest → ¬ IsEnvelope t id op cs)
+    (hc : cs.flatten = (ms.map (·.2)).flatten ++ bad ++ y)
+    (evs : List Ev) (hcount : allocCount evs ≤ N) :
+    (run (init N) (srvEvents (connFramesWith tokOf cs) ++ evs)).srvLog =
+      (ms.map (·.1.frame)).mapIdx (fun i m => connFrameWith (tokOf i m) m) ∧
+    (run (init N) (srvEvents (connFramesWith tokOf cs) ++ evs)).link = .garbage ∧
+    ((run (init N) (srvEvents (connFramesWith tokOf cs) ++ evs)).drv = .running →
+     ms.length ≤ (run (init N) (srvEvents (connFramesWith tokOf cs) ++ evs)).pos →
+      (run (init N) (srvEvents (connFramesWith tokOf cs) ++ evs ++ [.drvResp])).drv = .endedErr ∧
+      NobodyWaits (run (init N) (srvEvents (connFramesWith tokOf cs) ++ evs ++ [.drvResp]))) := by
+  have hfr := connFramesWith_rejected tokOf ms bad y cs hwf hsz (C11_complete_non_envelope_rejected bad ha hn) hc
+  rw [hfr]
+  have h0 := run_srvEvents ((ms.map (·.1.frame)).mapIdx (fun i m => connFrameWith (tokOf i m) m), true) (init N) rfl
+  have hfz := run_srv_frozen evs (run (init N) (srvEvents ((ms.map (·.1.frame)).mapIdx (fun i m => connFrameWith (tokOf i m) m), true)))
+    (by rw [h0]; simp)
+  have h1 : (run (init N) (srvEvents ((ms.map (·.1.frame)).mapIdx (fun i m => connFrameWith (tokOf i m) m), true) ++ evs)).srvLog =
+      (ms.map (·.1.frame)).mapIdx (fun i m => connFrameWith (tokOf i m) m) := by
+    rw [run_append', hfz.1, h0]; simp [init]
+  have h2 : (run (init N) (srvEvents ((ms.map (·.1.frame)).mapIdx (fun i m => connFrameWith (tokOf i m) m), true) ++ evs)).link = .garbage := by
+    rw [run_append', hfz.2, h0]; rfl
+  refine ⟨h1, h2, fun hr hpos => ?_⟩
+  have hp : (run (init N) (srvEvents ((ms.map (·.1.frame)).mapIdx (fun i m => connFrameWith (tokOf i m) m), true) ++ evs)).srvLog[
+      (run (init N) (srvEvents ((ms.map (·.1.frame)).mapIdx (fun i m => connFrameWith (tokOf i m) m), true) ++ evs)).pos]? = none := by
+    rw [List.getElem?_eq_none_iff, h1]
+    simpa using hpos
+  have hd : (run (init N) (srvEvents ((ms.map (·.1.frame)).mapIdx (fun i m => connFrameWith (tokOf i m) m), true) ++ evs ++ [.drvResp])).drv = .endedErr := by
+    rw [run_drvResp_garbage _ _ hr hp h2]; rfl
+  refine ⟨hd, C11_dead_connection_nobody_waits N _ ?_ (by rw [hd]; simp)⟩
+  rw [allocCount_append_nonalloc _ _ (by intro e he; simp at he; subst he; rfl), allocCount_srvEvents_append]
+  exact hcount
+
+/-! ### non-vacuity (tests): a Delete (ID 1) and a search (ID 2) in flight; the server's bytes are the
+DelResponse, then `30 03 04 01 41`, then `30`, read one byte at a time; the driver consumes the
+response between the two server events -/
+def exBadReads : List Bytes := (exDelRespBytes ++ [0x30, 0x03, 0x04, 0x01, 0x41] ++ [0x30]).map ([·])
+def exBadSegs : List (List Ev) :=
+  [[.alloc .single, .enqueue 0 none, .alloc .search, .enqueue 1 none, .drvOp true, .drvOp true, .poll 1], [.drvResp]]
+
+example :
+    exBadReads.flatten = ([(exDelResp, exDelRespBytes)].map (·.2)).flatten ++ [0x30, 0x03, 0x04, 0x01, 0x41] ++ [0x30] ∧
+    (∀ seg ∈ exBadSegs, ∀ e ∈ seg, isSrv e = false) ∧ allocCount exBadSegs.flatten ≤ 100 ∧
+    connFrames exBadReads = ([⟨1, 11, 0, true⟩], true) ∧
+    (run (init 100) (weave (srvEvents (connFrames exBadReads)) exBadSegs)).drv = .running ∧
+    1 ≤ (run (init 100) (weave (srvEvents (connFrames exBadReads)) exBadSegs)).pos := by decide
+
+/-- what is left: the driver ended with an error, the Delete's caller has its response, the search's
+stream has no sender -/
+example :
+    let s := run (init 100) (weave (srvEvents (connFrames exBadReads)) exBadSegs ++ [.drvResp])
+    s.drv = .endedErr ∧ s.srvLog = [⟨1, 11, 0, true⟩] ∧ s.link = .garbage ∧
+    s.ops.map (·.mail) = [.frame ⟨1, 11, 0, true⟩, .ack] ∧ chanOpen s 0 = false ∧ s.inUse = [] := by decide
 
 end Ldap3V.Conn
